@@ -434,6 +434,107 @@ fn boundary_family(c: &Cfg) -> Vec<Vec<u8>> {
     v
 }
 
+
+// ------------------------------------------------------------------ two chunkers alive at once
+
+/// A reader handing out `step` bytes per read, always ready.
+struct StepReader<'a> {
+    data: &'a [u8],
+    pos: usize,
+    step: usize,
+}
+impl AsyncRead for StepReader<'_> {
+    fn poll_read(mut self: Pin<&mut Self>, _cx: &mut Context<'_>, buf: &mut ReadBuf<'_>) -> Poll<std::io::Result<()>> {
+        let n = self.step.min(self.data.len() - self.pos).min(buf.remaining());
+        let (a, b) = (self.pos, self.pos + n);
+        buf.put_slice(&self.data[a..b]);
+        self.pos = b;
+        Poll::Ready(Ok(()))
+    }
+}
+
+/// "Depends on the bytes alone": not on another chunker that is alive at the same time either. Two public chunker
+/// streams over inputs X and Y are advanced in turns (patterns AB, AAB, ABB; 1 or 3 bytes per read) and each must
+/// yield what it yields alone. Anything the instances share (a static table that is written to, a scratch buffer
+/// moved to module scope, a thread-local cache) shows here and nowhere else.
+fn interleaved_leg(rep: &mut Report, cfgs: &[Cfg]) {
+    use futures_util::StreamExt;
+    let thorough = rep.thorough();
+    let n = if thorough { 8 } else { 6 };
+    let alpha: Vec<u8> = vec![0x00, b'a'];
+    let inputs: Vec<Vec<u8>> = (0..count_strings(&alpha, n)).map(|i| nth_string(&alpha, n, i)).chain([vec![], vec![b'a'], (0..40u8).collect(), vec![0u8; 33], vec![0xffu8; 29]]).collect();
+    let sel: Vec<&Cfg> = cfgs.iter().enumerate().filter(|(i, _)| thorough || i % 6 == 0).map(|(_, c)| c).collect();
+    let (inputs_ref, sel_ref) = (&inputs, &sel);
+    let a = par_shards(sel.len(), threads(), |ci| {
+        let c = sel_ref[ci];
+        let bc = c.to_bitar();
+        let mut agg = Agg::default();
+        let solo: Vec<Option<Vec<(u64, Vec<u8>)>>> = inputs_ref.iter().map(|d| real_chunks(&bc, d).ok()).collect();
+        for (xi, x) in inputs_ref.iter().enumerate() {
+            for (yi, y) in inputs_ref.iter().enumerate() {
+                if (xi + yi) % 3 != 0 && !thorough {
+                    continue;
+                }
+                let (sx, sy) = match (&solo[xi], &solo[yi]) {
+                    (Some(a), Some(b)) => (a, b),
+                    _ => continue,
+                };
+                for (pi, pattern) in [[0usize, 1, 9], [0, 0, 1], [0, 1, 1]].iter().enumerate() {
+                    let step = if (xi + pi) % 2 == 0 { 1 } else { 3 };
+                    let mut sa = bc.new_chunker(StepReader { data: x, pos: 0, step });
+                    let mut sb = bc.new_chunker(StepReader { data: y, pos: 0, step: 4 - step });
+                    let (mut ga, mut gb): (Vec<(u64, Vec<u8>)>, Vec<(u64, Vec<u8>)>) = (vec![], vec![]);
+                    let (mut da, mut db) = (false, false);
+                    let mut err = None;
+                    let mut turn = 0usize;
+                    while !(da && db) && err.is_none() && turn < 10_000 {
+                        let who = pattern[turn % 3];
+                        turn += 1;
+                        if who == 0 && !da {
+                            match crate::clonelab::drive_ready(sa.next()) {
+                                Ok(Some(Ok((o, ch)))) => ga.push((o, ch.data().to_vec())),
+                                Ok(Some(Err(e))) => err = Some(e.to_string()),
+                                Ok(None) => da = true,
+                                Err(e) => err = Some(e),
+                            }
+                        } else if who == 1 && !db {
+                            match crate::clonelab::drive_ready(sb.next()) {
+                                Ok(Some(Ok((o, ch)))) => gb.push((o, ch.data().to_vec())),
+                                Ok(Some(Err(e))) => err = Some(e.to_string()),
+                                Ok(None) => db = true,
+                                Err(e) => err = Some(e),
+                            }
+                        } else if da {
+                            // the other one is finished: keep going with the one that is not
+                            match crate::clonelab::drive_ready(sb.next()) {
+                                Ok(Some(Ok((o, ch)))) => gb.push((o, ch.data().to_vec())),
+                                Ok(Some(Err(e))) => err = Some(e.to_string()),
+                                Ok(None) => db = true,
+                                Err(e) => err = Some(e),
+                            }
+                        } else if db {
+                            match crate::clonelab::drive_ready(sa.next()) {
+                                Ok(Some(Ok((o, ch)))) => ga.push((o, ch.data().to_vec())),
+                                Ok(Some(Err(e))) => err = Some(e.to_string()),
+                                Ok(None) => da = true,
+                                Err(e) => err = Some(e),
+                            }
+                        }
+                    }
+                    agg.add("interleaved_pairs", 1);
+                    if err.is_some() || &ga != sx || &gb != sy {
+                        agg.viol("chunking-depends-on-another-live-chunker", || json!({"leg": "interleaved", "cfg": c.json(), "x": hex(x), "y": hex(y), "turns": pattern, "error": err,
+                            "x_cuts": ga.iter().map(|(o, b)| *o as usize + b.len()).collect::<Vec<_>>(), "x_alone": sx.iter().map(|(o, b)| *o as usize + b.len()).collect::<Vec<_>>(),
+                            "y_cuts": gb.iter().map(|(o, b)| *o as usize + b.len()).collect::<Vec<_>>(), "y_alone": sy.iter().map(|(o, b)| *o as usize + b.len()).collect::<Vec<_>>()}));
+                    }
+                }
+            }
+        }
+        agg
+    });
+    rep.agg.merge(a);
+}
+
 pub fn run(rep: &mut Report) {
     let thorough = rep.thorough();
     let (alpha, nmax): (Vec<u8>, usize) = if thorough { (vec![0x00, b'a', b'b', 0xff], 11) } else { (vec![0x00, 0x01, 0xff], 9) };
@@ -469,6 +570,7 @@ pub fn run(rep: &mut Report) {
         agg
     });
     rep.agg.merge(a);
+    interleaved_leg(rep, &cfgs);
 
     // ---- leg A2: structured long inputs at default parameters (1 MiB refill buffer crossings)
     {
